@@ -39,7 +39,7 @@ func (s wlStep) String() string {
 	return fmt.Sprintf("%s(%d,%d,%d%s)", s.Op, s.A, s.B, s.C, labelsStr(s.L))
 }
 
-var wlOps = []string{"release", "put", "put", "del", "attach", "attach", "mon", "refilter", "closeNode", "stall", "disconnect", "relistPending", "relistDone"}
+var wlOps = []string{"release", "put", "put", "del", "attach", "attach", "mon", "refilter", "closeNode", "stall", "disconnect", "relistPending", "relistDone", "frames"}
 
 func genWorkload() *rapid.Generator[[]wlStep] {
 	return rapid.Custom(func(t *rapid.T) []wlStep {
@@ -144,6 +144,13 @@ func c12Apply(w *world, st *c12State, s wlStep) {
 		n := w.api.closeSessions()
 		w.h("watch streams closed by the server (%d); reconnect timer pending", n)
 		st.forced["mid-reconnect"] = true
+	case "frames":
+		if !w.rootReady {
+			return
+		}
+		n := w.api.injectFrames(s.A)
+		w.h("non-object frame (%s) on %d watch streams", []string{"Status 410", "Bookmark", "unknown type"}[s.A%3], n)
+		st.forced["after-non-object-frame"] = true
 	case "reconnectWait":
 		if !w.rootReady {
 			return
